@@ -178,6 +178,12 @@ Lemma archives_index_as_modelled :
   exists_wf zip_exists = true /\ exists_wf tar_exists = true.
 Proof. vm_compute. repeat split. Qed.
 
+Lemma archives_list_each_entry_once :
+  register_dir_wf zip_register_dir = true /\ register_dir_wf tar_register_dir = true /\
+  register_file_wf zip_register_file = true /\ register_file_wf tar_register_file = true /\
+  read_dir_wf zip_read_dir = true /\ read_dir_wf tar_read_dir = true.
+Proof. vm_compute. repeat split. Qed.
+
 (* the parent of a directory id, as register_dir uses it: none for the root, "" for a top-level id,
    everything before the last dot otherwise (Ref/Tree.parent: removelast) *)
 Definition parent_id_wf (f : fn_def) : bool :=
